@@ -28,7 +28,9 @@ EXTENDS McaCore
 
 CONSTANTS Mode,          \* "seq" | "par"
           RestorePars,   \* BOOLEAN
-          RestoreY0      \* BOOLEAN
+          RestoreY0,     \* BOOLEAN
+          Cyclic,        \* TRUE: the closed loop x1 <-> x2 (steady state depends on the starting state), else the open chain
+          EarlyRestoreY0 \* TRUE: the supplied initial values are taken back BEFORE the reference steady state (wrong)
 VARIABLES caller, copies, pc, loc, res, wy, nz
 pvars == <<caller, copies, pc, loc, res, wy, nz>>
 
@@ -40,14 +42,23 @@ Chain == [vars |-> <<"x1", "x2">>, pars |-> <<"kin", "k1", "k2">>,
                      [name |-> "v1", rate |-> Mul(k1, Sym("x1")), st |-> ("x1" :> (0 - 1)) @@ ("x2" :> 1)],
                      [name |-> "v2", rate |-> Mul(k2, Sym("x2")), st |-> ("x2" :> (0 - 1))]>>,
           ss |-> ("x1" :> Div(kin, k1)) @@ ("x2" :> Div(kin, k2))]
-Tasks == Range(Chain.pars)
-TaskOrder == Chain.pars
+\* closed loop: the total T of the initial values the search starts from is conserved
+Cycle == [vars |-> <<"x1", "x2">>, pars |-> <<"k1", "k2">>,
+          rxns |-> <<[name |-> "v1", rate |-> Mul(k1, Sym("x1")), st |-> ("x1" :> (0 - 1)) @@ ("x2" :> 1)],
+                     [name |-> "v2", rate |-> Mul(k2, Sym("x2")), st |-> ("x1" :> 1) @@ ("x2" :> (0 - 1))]>>,
+          ss |-> ("x1" :> Div(Mul(Sym("T"), k2), Add(k1, k2))) @@ ("x2" :> Div(Mul(Sym("T"), k1), Add(k1, k2)))]
+TheNet == IF Cyclic THEN Cycle ELSE Chain
+Tasks == Range(TheNet.pars)
+TaskOrder == TheNet.pars
 H == R(1, 10)
 
-Entry == [pars  |-> ("kin" :> RInt(2)) @@ ("k1" :> RInt(1)) @@ ("k2" :> RInt(4)),
+Entry == [pars  |-> IF Cyclic THEN ("k1" :> RInt(1)) @@ ("k2" :> RInt(3))
+                    ELSE ("kin" :> RInt(2)) @@ ("k1" :> RInt(1)) @@ ("k2" :> RInt(4)),
           inits |-> ("x1" :> RInt(1)) @@ ("x2" :> RInt(1))]
 Y0 == ("x1" :> RInt(3)) @@ ("x2" :> RInt(5))
-SS(pars) == [x \in Range(Chain.vars) |-> SSValue(Chain, x, pars)]
+\* the steady state the search finds from model m: a function of its parameters and of the total of its initial values
+PT(m) == m.pars @@ ("T" :> RAdd(m.inits["x1"], m.inits["x2"]))
+SS(m) == [x \in Range(TheNet.vars) |-> SSValue(TheNet, x, PT(m))]
 
 NoLoc == [old |-> RZero, up |-> <<>>, dn |-> <<>>, nrm |-> <<>>, saved |-> <<>>]
 
@@ -79,24 +90,24 @@ PerturbUp(t) == /\ pc[t] = "up" /\ MayMove(t)
                 /\ Write(t, [M(t) EXCEPT !.pars[t] = RMul(loc[t].old, RAdd(ROne, H))])
                 /\ Goto(t, "ssup") /\ Keep(t)
 SteadyUp(t) == /\ pc[t] = "ssup" /\ MayMove(t)
-               /\ loc' = [loc EXCEPT ![t].up = SS(M(t).pars)]
+               /\ loc' = [loc EXCEPT ![t].up = SS(M(t))]
                /\ Goto(t, "down") /\ UNCHANGED <<caller, copies, res, wy, nz>>
 PerturbDown(t) == /\ pc[t] = "down" /\ MayMove(t)
                   /\ Write(t, [M(t) EXCEPT !.pars[t] = RMul(loc[t].old, RSub(ROne, H))])
                   /\ Goto(t, "ssdown") /\ Keep(t)
 SteadyDown(t) == /\ pc[t] = "ssdown" /\ MayMove(t)
-                 /\ loc' = [loc EXCEPT ![t].dn = SS(M(t).pars)]
+                 /\ loc' = [loc EXCEPT ![t].dn = SS(M(t))]
                  /\ Goto(t, "restore") /\ UNCHANGED <<caller, copies, res, wy, nz>>
 Restore(t) == /\ pc[t] = "restore" /\ MayMove(t)
               /\ (IF RestorePars THEN Write(t, [M(t) EXCEPT !.pars[t] = loc[t].old]) ELSE UNCHANGED <<caller, copies>>)
-              /\ Goto(t, "norm") /\ Keep(t)
+              /\ Goto(t, IF EarlyRestoreY0 THEN "resty0" ELSE "norm") /\ Keep(t)
 Normalise(t) == /\ pc[t] = "norm" /\ MayMove(t)
-                /\ loc' = [loc EXCEPT ![t].nrm = IF nz THEN SS(M(t).pars) ELSE <<>>]
-                /\ Goto(t, "resty0") /\ UNCHANGED <<caller, copies, res, wy, nz>>
+                /\ loc' = [loc EXCEPT ![t].nrm = IF nz THEN SS(M(t)) ELSE <<>>]
+                /\ Goto(t, IF EarlyRestoreY0 THEN "finish" ELSE "resty0") /\ UNCHANGED <<caller, copies, res, wy, nz>>
 RestoreInit(t) == /\ pc[t] = "resty0" /\ MayMove(t)
                   /\ (IF wy /\ RestoreY0 THEN Write(t, [M(t) EXCEPT !.inits = loc[t].saved]) ELSE UNCHANGED <<caller, copies>>)
-                  /\ Goto(t, "finish") /\ Keep(t)
-Coef(t) == [x \in Range(Chain.vars) |->
+                  /\ Goto(t, IF EarlyRestoreY0 THEN "norm" ELSE "finish") /\ Keep(t)
+Coef(t) == [x \in Range(TheNet.vars) |->
               LET q == RDiv(RSub(loc[t].up[x], loc[t].dn[x]), RMul(RMul(RInt(2), H), loc[t].old))
               IN  IF nz THEN RDiv(RMul(q, loc[t].old), loc[t].nrm[x]) ELSE q]
 Finish(t) == /\ pc[t] = "finish" /\ MayMove(t)
@@ -108,9 +119,11 @@ Next == \E t \in Tasks : Start(t) \/ PerturbUp(t) \/ SteadyUp(t) \/ PerturbDown(
 
 AllDone == \A t \in Tasks : pc[t] = "done"
 \* the quotient of the ENTRY model: what every task must return whatever the mode and the schedule
-Exact(t) == [x \in Range(Chain.vars) |->
-               LET q == Quot(Chain.ss[x], t, Entry.pars, H)
-               IN  IF nz THEN RDiv(RMul(q, Entry.pars[t]), SSValue(Chain, x, Entry.pars)) ELSE q]
+\* (the analysis is AT the supplied state when one is supplied: difference and scaling both start from it)
+AtModel == [Entry EXCEPT !.inits = IF wy THEN Y0 ELSE Entry.inits]
+Exact(t) == [x \in Range(TheNet.vars) |->
+               LET q == Quot(TheNet.ss[x], t, PT(AtModel), H)
+               IN  IF nz THEN RDiv(RMul(q, Entry.pars[t]), SSValue(TheNet, x, PT(AtModel))) ELSE q]
 
 ParsRestored    == AllDone => caller.pars = Entry.pars
 InitsRestored   == AllDone => caller.inits = Entry.inits
